@@ -11,7 +11,7 @@ CLAIMED = {
 def hook_commits():
     try:
         out = subprocess.run(["git", "-C", "/repo", "log", "--format=%H %s"], capture_output=True, text=True).stdout
-        return [l.split()[0] for l in out.splitlines() if l.split(" ", 1)[1].startswith("verif hook")]
+        return [l.split()[0] for l in out.splitlines() if l.split(" ", 1)[1].startswith(("verif hook", "verif:"))]
     except Exception:
         return []
 
